@@ -168,7 +168,10 @@ public:
     void rollback(std::size_t iteration) override
     {
         Checkpoint::rollback(iteration);
-        generators_.erase(generators_.begin() + iteration, generators_.end());
+
+        // `generators_[i]` is the generator used in iteration `i`, the one after the last result is
+        // the generator for the next iteration; therefore keep one generator more than results
+        generators_.erase(generators_.begin() + iteration + 1, generators_.end());
     }
 
     void serialize(std::ostream& out) const override
